@@ -390,7 +390,7 @@ impl M2Model {
         }
 
         let count = self.header.views.count as usize;
-        let mut skins = Vec::with_capacity(count);
+        let mut skins = Vec::with_capacity(count.min(4096));
 
         for i in 0..count {
             skins.push(self.parse_embedded_skin(original_m2_data, i)?);
